@@ -83,14 +83,24 @@ def _lock(name: str):
         fh.close()
 
 
-def lean_build(timeout=3000):
-    """`lake build` of the whole project (no-op when warm). Returns (ok, log)."""
+def lean_build(prop=None, timeout=3000):
+    """Tie B: regenerate lean/Tdgl/Generated/*.lean from /repo's current source, then `lake build` the whole
+    project (no-op when warm).  If the whole build fails, the modules this property needs are built on their own,
+    so that a broken bridge of one property does not take the other checks down.  Returns (ok, log, seconds)."""
     with _lock("lake"):
         t0 = time.time()
-        p = subprocess.run(
-            ["lake", "build"], cwd=LEAN, stdout=subprocess.PIPE, stderr=subprocess.STDOUT, text=True, timeout=timeout
-        )
-        return p.returncode == 0, p.stdout, time.time() - t0
+        tr = subprocess.run([sys.executable, str(ROOT / "tools" / "pyexpr2lean.py")], stdout=subprocess.PIPE, stderr=subprocess.STDOUT, text=True,
+                            env=dict(os.environ, VERIF_REPO=str(REPO)))
+        log = "translator: " + tr.stdout.strip() + "\n"
+        p = subprocess.run(["lake", "build"], cwd=LEAN, stdout=subprocess.PIPE, stderr=subprocess.STDOUT, text=True, timeout=timeout)
+        log += p.stdout
+        ok = p.returncode == 0
+        if not ok and prop is not None:
+            targets = [f"Tdgl.Props.{prop}"] + ([f"Tdgl.Props.{prop}Bridge"] if (LEAN / "Tdgl" / "Props" / f"{prop}Bridge.lean").exists() else []) + ["driver"]
+            q = subprocess.run(["lake", "build"] + targets, cwd=LEAN, stdout=subprocess.PIPE, stderr=subprocess.STDOUT, text=True, timeout=timeout)
+            log += "\n--- per-property build ---\n" + q.stdout
+            ok = q.returncode == 0
+        return ok, log, time.time() - t0
 
 
 def _strip_comments(src: str) -> str:
@@ -111,12 +121,17 @@ def source_audit():
     return hits
 
 
+def prop_files(prop: str):
+    d = LEAN / "Tdgl" / "Props"
+    return [f for f in (d / f"{prop}.lean", d / f"{prop}Bridge.lean") if f.exists()]
+
+
 def theorems_of(prop: str):
-    f = LEAN / "Tdgl" / "Props" / f"{prop}.lean"
-    if not f.exists():
-        return []
-    src = _strip_comments(f.read_text())
-    return re.findall(rf"^\s*theorem\s+({prop}_\w+)", src, flags=re.M)
+    names = []
+    for f in prop_files(prop):
+        src = _strip_comments(f.read_text())
+        names += re.findall(rf"^\s*theorem\s+({prop}_\w+)", src, flags=re.M)
+    return names
 
 
 def axiom_audit(prop: str, timeout=900):
@@ -127,7 +142,7 @@ def axiom_audit(prop: str, timeout=900):
         return {}
     WORK.mkdir(exist_ok=True)
     af = WORK / f"audit_{prop}_{os.getpid()}.lean"
-    body = f"import Tdgl.Props.{prop}\n" + "".join(f"#print axioms Tdgl.{prop}.{n}\n" for n in names)
+    body = "".join(f"import Tdgl.Props.{f.stem}\n" for f in prop_files(prop)) + "".join(f"#print axioms Tdgl.{prop}.{n}\n" for n in names)
     af.write_text(body)
     try:
         p = subprocess.run(
